@@ -28,7 +28,7 @@ CHECKS = {
     "C10": {
         "level": "exploration",
         "legs": [("ndf", "C10"), ("ndf", "C10"), ("ndf", "C10"), ("multi", "C10")],
-        "quick": {"runs": 8000, "wall": 90},
+        "quick": {"runs": 10000, "wall": 90},
         "thorough": {"runs": 400000, "wall": 1500},
     },
     "C03": {
@@ -67,7 +67,19 @@ CHECKS = {
 
 def leg_of(check, i):
     legs = CHECKS[check]["legs"]
-    return legs[i % len(legs)]
+    # a function of the run index alone (not of the worker count); the i // 16 term rotates the legs over the statically
+    # strided workers so that a slow leg does not sit on the same few workers
+    return legs[(i + i // 16) % len(legs)]
+
+
+def idx_of(check, i):
+    """Structural index handed to the machine's generator (selects fit type / host / regime classes by idx % k):
+    counts the runs of that machine, so that every class is reached on every leg, and is decorrelated from the worker."""
+    legs = CHECKS[check]["legs"]
+    j = i + i // 16
+    leg = j % len(legs)
+    same = [k for k, l in enumerate(legs) if l[0] == legs[leg][0]]
+    return (j // len(legs)) * len(same) + same.index(leg)
 
 
 EVIDENCE_TEXT = {
